@@ -215,6 +215,10 @@ pub fn witness_module_seeds() -> Vec<(String, String)> {
     vec![
         ("wit-module".into(), "mod witness {\n    const A: u8 = 5;\n    const B: (u16, bool) = (0xbeef, true);\n    const C: List<u8, 4> = list![1, 2];\n    const D: [u8; 2] = 0x0102;\n    const E: Either<u8, Option<u1>> = Right(Some(1));\n}\n".into()),
         ("wit-module-nonascii".into(), "mod witness { /* ööööö語🦀 */ const A: u8 = /* öööö */ 5; /* 語語語 */ const B: (u16, bool) = (/* 🦀🦀🦀🦀 */ 7, true); }\n".into()),
+        // both modules, values written with blocks and matches (scope-opening constructs), and an item after them:
+        // whichever module an entry point does not ask for comes first in one of the two files
+        ("modules-scoped-param-first".into(), "mod param {\n    const N: u8 = { let x: u8 = 25; x };\n    const B: bool = match true { true => false, false => true, };\n}\nmod witness {\n    const A: u8 = { let y: u8 = 5; y };\n}\nfn main() {}\n".into()),
+        ("modules-scoped-witness-first".into(), "mod witness {\n    const A: u8 = { let y: u8 = 5; y };\n    const C: bool = match false { true => false, false => true, };\n}\nmod param {\n    const N: u8 = { let x: u8 = 25; x };\n}\nfn main() {}\n".into()),
         ("param-module".into(), "mod param {\n    const KEY: u256 = 0x79be667ef9dcbbac55a06295ce870b07029bfcdb2dce28d959f2815b16f81798;\n    const N: u32 = 1_000;\n}\nmod witness {}\n".into()),
     ]
 }
